@@ -5,15 +5,28 @@ import (
 	"verifharness/sexp"
 )
 
+// Generator produces case number i of a stream for a profile; nil means unknown profile.
+type Generator func(profile string, r *prng.R, id string, i int) *sexp.S
+
+var registry = map[string]Generator{}
+
+// Register adds the generator of a stream; called from init functions.
+func Register(stream string, g Generator) { registry[stream] = g }
+
 // Case generates case number i of a stream/profile.
 func Case(stream, profile string, r *prng.R, id string, i int) *sexp.S {
-	switch stream {
-	case "run":
+	if g, ok := registry[stream]; ok {
+		return g(profile, r, id, i)
+	}
+	return nil
+}
+
+func init() {
+	Register("run", func(profile string, r *prng.R, id string, i int) *sexp.S {
 		p := Profiles[profile]
 		if p == nil {
 			return nil
 		}
 		return RunCase(r, p, id)
-	}
-	return nil
+	})
 }
